@@ -417,6 +417,12 @@ func (vc *VC) callEffects(eff *Effects, call *ast.CallExpr, info *types.Info, de
 				}
 				return
 			}
+			if lit := vc.globalFuncLit(o, info); lit != nil {
+				if depth < 6 {
+					vc.collectEffects(eff, lit.Body, info, depth+1)
+				}
+				return
+			}
 			eff.all = true
 			eff.why = append(eff.why, "call of function variable "+f.Name)
 			return
@@ -558,6 +564,14 @@ func (vc *VC) specEffectsSig(eff *Effects, spec *FuncSpec, sig *types.Signature,
 		}
 	}
 	for _, m := range spec.Modifies {
+		if isStreamMod(m) {
+			for _, n := range streamArrs {
+				a := eff.arr(n)
+				a.sort = ArraySort(SInt, SInt)
+				a.whole = true
+			}
+			continue
+		}
 		if m.K == "call" && m.X.K == "id" && m.X.Name == "box" && len(m.Args) == 1 {
 			if tn := env.typeNameOf(m.Args[0]); tn != nil {
 				vc.ptrTargetEffect(eff, tn.Type(), nil)
